@@ -76,8 +76,14 @@ Proof. unfold TST_lt. rewrite src_tst_ge. reflexivity. Qed.
 Lemma src_tst_le a b : TST_le a b = negb (tst_gt a b).
 Proof. unfold TST_le. rewrite src_tst_gt. reflexivity. Qed.
 
+Lemma src_tst_encode a : TST_encode a = a mod 2 ^ 32.
+Proof. unfold TST_encode. first [reflexivity | change 4294967295 with (Z.ones 32); apply Z.land_ones; lia]. Qed.
+
+Lemma src_tst_decode a : TST_decode a = a mod 2 ^ 32.
+Proof. unfold TST_decode. first [reflexivity | change 4294967295 with (Z.ones 32); apply Z.land_ones; lia]. Qed.
+
 Lemma src_tst_wire a : TST_encode a = a mod 2 ^ 32 /\ TST_decode a = a mod 2 ^ 32.
-Proof. split; reflexivity. Qed.
+Proof. split; [apply src_tst_encode | apply src_tst_decode]. Qed.
 
 Lemma src_tst_add a b : TST_add a b = (a + b) mod 2 ^ 32.
 Proof. reflexivity. Qed.
@@ -124,7 +130,7 @@ Proof. repeat split; [apply src_tst_gt | apply src_tst_ge | apply src_tst_lt | a
 
 Lemma src_tst_arith a b :
   TST_sub a b = tst_sub a b /\ TST_add a b = (a + b) mod 2 ^ 32 /\ TST_encode a = a mod 2 ^ 32 /\ TST_decode a = a mod 2 ^ 32.
-Proof. repeat split; try reflexivity; try apply src_tst_sub. Qed.
+Proof. repeat split; try reflexivity; try apply src_tst_sub; try apply src_tst_encode; try apply src_tst_decode. Qed.
 
 Lemma src_tst_real t d : 0 < d < 2 ^ 31 ->
   TST_gt ((t + d) mod 2 ^ 32) (t mod 2 ^ 32) = true /\ TST_gt (t mod 2 ^ 32) ((t + d) mod 2 ^ 32) = false.
